@@ -236,6 +236,10 @@ class _CallPatchARM64(_CallPatchImpl):
             raise ValueError("shadow_space does not apply to ARM64")
         if conv.stack_alignment != 16:
             raise ValueError("ARM64 stack alignment should be 16")
+        if not conv.caller_cleanup:
+            # The generated code always pops what it pushed; with a callee
+            # that pops its own arguments the stack would be adjusted twice.
+            raise ValueError("callee cleanup does not apply to ARM64")
 
         self._sym = sym
         self._args = self._create_passed_args(conv, args)
